@@ -50,7 +50,10 @@ class PathOrigins(Origins):
                 if best is None or key > best[0]:
                     best = (key, d)
         if best is None:
-            return [], True
+            if getattr(self, "_on_path_only", False):
+                return [], True
+            # defined before the path starts (e.g. ahead of the loop whose iteration is analysed)
+            return Origins.reaching(self, local, self.path[0], 0)
         return [best[1]], False
 
     def _site(self, local, site, depth, stack):
@@ -80,7 +83,11 @@ class PathOriginsOv(PathOrigins):
 
     def of_local(self, local, block, idx, depth=0, stack=()):
         if local in self.overrides:
-            sites, entry = self.reaching(local, block, idx)
+            self._on_path_only = True
+            try:
+                sites, entry = self.reaching(local, block, idx)
+            finally:
+                self._on_path_only = False
             if entry or not sites:
                 return self.overrides[local]
             s0 = sites[0]
